@@ -39,8 +39,8 @@ const (
 // filters
 
 type c19Filter struct {
-	Nil          bool
-	Vote, Failed int // 0 absent, 1 true, 2 false
+	Nil           bool
+	Vote, Failed  int // 0 absent, 1 true, 2 false
 	Inc, Exc, Req []int
 }
 
@@ -121,7 +121,8 @@ type c19World struct {
 	// does a filter message with an absent optional flag panic on this tree? (probed once, on the scan path,
 	// where the panic can be recovered; on the index path the same dereference happens inside a goroutine and
 	// would kill the whole process)
-	absentPanics bool
+	absentPanics   bool
+	slotFieldWrong int
 }
 
 func (w *c19World) id(k solana.PublicKey) int {
@@ -224,11 +225,12 @@ func (w *c19World) proto(f c19Filter) *old_faithful_grpc.StreamTransactionsFilte
 type c19WorldOpts struct {
 	seed    uint64
 	variant int
+	try     int // bumped when the real indexer refuses the generated CAR (see TestVerifC19)
 	tier    string
 }
 
 func (o c19WorldOpts) line() string {
-	return fmt.Sprintf("world seed=%d v=%d tier=%s", o.seed, o.variant, o.tier)
+	return fmt.Sprintf("world seed=%d v=%d try=%d tier=%s", o.seed, o.variant, o.try, o.tier)
 }
 
 func c19ParseWorld(w []string) c19WorldOpts {
@@ -240,6 +242,8 @@ func c19ParseWorld(w []string) c19WorldOpts {
 			o.seed, _ = strconv.ParseUint(kv[1], 10, 64)
 		case "v":
 			o.variant, _ = strconv.Atoi(kv[1])
+		case "try":
+			o.try, _ = strconv.Atoi(kv[1])
 		case "tier":
 			o.tier = kv[1]
 		}
@@ -249,7 +253,7 @@ func c19ParseWorld(w []string) c19WorldOpts {
 
 // c19Build generates the two epochs, indexes them with the real indexers and loads the two servers.
 func c19Build(dir string, o c19WorldOpts) (*c19World, error) {
-	rng := zz.NewRNG(o.seed*1000003 + uint64(o.variant)*7919 + 19)
+	rng := zz.NewRNG(o.seed*1000003 + uint64(o.variant)*7919 + uint64(o.try)*104729 + 19)
 	ea := uint64(2 + rng.Intn(40))
 	nb, maxTx := 60+rng.Intn(20), 6+rng.Intn(3)
 	if o.tier == "thorough" {
@@ -375,6 +379,11 @@ func (w *c19World) decodeTxMsgs(msgs []*old_faithful_grpc.TransactionResponse) [
 		}
 		if m.Transaction.Index == nil || int(*m.Transaction.Index) != t.Pos {
 			it.bad = true
+		}
+		// observation only (the property speaks of the transactions sent, not of the envelope): the block-scan path
+		// leaves TransactionResponse.slot / .index unset, the index path fills them
+		if m.Slot != t.Slot {
+			w.slotFieldWrong++
 		}
 		out = append(out, it)
 	}
@@ -891,6 +900,7 @@ type c19Run struct {
 	world   c19WorldOpts
 	results map[string][]c19Item // streamtx results by "lo hi filter" for the gsfa-dependence comparison
 	outs    map[string]string
+	window  map[string]bool
 }
 
 func (r *c19Run) viol(v c19Verdict, line string) {
@@ -968,8 +978,18 @@ func (r *c19Run) streamTx(lo uint64, hi string, gsfaOn, direct bool, f c19Filter
 	}
 	// third sentence of the property: the set does not depend on the address index
 	key := fmt.Sprintf("%d %s %s", lo, hi, f)
-	if prev, ok := r.outs[key+fmt.Sprint(!gsfaOn)]; ok && strings.HasPrefix(prev, "ok") && strings.HasPrefix(out, "ok") {
-		other := r.results[key+fmt.Sprint(!gsfaOn)]
+	window := false
+	for _, v := range vs {
+		if v.key == c19KeyWindow {
+			window = true
+		}
+	}
+	r.outs[key+fmt.Sprint(gsfaOn)] = out
+	r.results[key+fmt.Sprint(gsfaOn)] = items
+	r.window[key+fmt.Sprint(gsfaOn)] = window
+	outG, okG := r.outs[key+"true"]
+	outN, okN := r.outs[key+"false"]
+	if okG && okN && strings.HasPrefix(outG, "ok") && strings.HasPrefix(outN, "ok") && !r.window[key+"true"] {
 		set := func(l []c19Item) string {
 			var s []string
 			for _, it := range l {
@@ -980,20 +1000,11 @@ func (r *c19Run) streamTx(lo uint64, hi string, gsfaOn, direct bool, f c19Filter
 			sort.Strings(s)
 			return strings.Join(s, " ")
 		}
-		if set(other) != set(items) {
-			windowOnly := false
-			for _, v := range vs {
-				if v.key == c19KeyWindow {
-					windowOnly = true
-				}
-			}
-			if !windowOnly {
-				r.viol(c19Verdict{"C19:set-depends-on-address-index", fmt.Sprintf("with the address index %d transactions are sent, without it %d, and the sets differ", len(items), len(other))}, line)
-			}
+		withG, withoutG := r.results[key+"true"], r.results[key+"false"]
+		if set(withG) != set(withoutG) {
+			r.viol(c19Verdict{"C19:set-depends-on-address-index", fmt.Sprintf("with the address index %d transactions are sent, without it %d, and the sets differ", len(withG), len(withoutG))}, line)
 		}
 	}
-	r.outs[key+fmt.Sprint(gsfaOn)] = out
-	r.results[key+fmt.Sprint(gsfaOn)] = items
 }
 
 func (r *c19Run) streamBlocks(lo uint64, hi string, filt string) {
@@ -1132,12 +1143,23 @@ func TestVerifC19(t *testing.T) {
 		wdir := filepath.Join(dir, fmt.Sprintf("w%d", wi))
 		os.MkdirAll(wdir, 0o755)
 		w, err := c19Build(wdir, wo)
+		// The shared generator can emit the same DataFrame object twice (two transactions with byte-identical
+		// metadata split into the same number of frames); `index all` refuses such a CAR ("hash collision" while
+		// mining the cid-to-offset bucket).  That is a matter of the fixture / of C01, not of streaming: take the
+		// next deterministic sub-variant.
+		for err != nil && replayLines == nil && wo.try < 8 && strings.Contains(err.Error(), "hash collision") {
+			s.Count("fixture retries (index all refused a CAR holding an object twice)")
+			os.RemoveAll(wdir)
+			os.MkdirAll(wdir, 0o755)
+			wo.try++
+			w, err = c19Build(wdir, wo)
+		}
 		if err != nil {
 			s.Op(wo.line(), "build-failed", false)
 			s.Violation("generated epochs could not be indexed / loaded by the real code: "+err.Error(), "C19:fixture-failed", s.Replay([]string{wo.line()}))
 			continue
 		}
-		r := &c19Run{s: s, w: w, world: wo, results: map[string][]c19Item{}, outs: map[string]string{}}
+		r := &c19Run{s: s, w: w, world: wo, results: map[string][]c19Item{}, outs: map[string]string{}, window: map[string]bool{}}
 		r.describe()
 		r.probe()
 		if replayLines != nil {
@@ -1147,6 +1169,7 @@ func TestVerifC19(t *testing.T) {
 		} else {
 			r.generate(zz.NewRNG(wo.seed*31+uint64(wo.variant)+5), wo.tier == "thorough")
 		}
+		s.Add("observation: messages whose envelope slot field differs from the transaction's slot", w.slotFieldWrong)
 		w.close()
 		os.RemoveAll(wdir)
 	}
